@@ -111,6 +111,23 @@ def handle : DrvHandler := fun op args =>
       match serve (fun _ _ => ops) (es.map (·.1)) c act b p fns with
       | .ok r => some (ok (respJson r))
       | .error e => some (err (errTag e))
+  | "C18.review", [entries, c, new, old, b_p, fns, ops] => do
+      -- the whole review from the request payload on: `object` / `oldObject` (null = absent)
+      let es ← (← jArr? entries).mapM entryOf?
+      let c ← causeOf? c
+      let new ← jOpt? toJ new
+      let old ← jOpt? toJ old
+      let p ← kvsOf? b_p
+      let fns ← (← jArr? fns).mapM fnOf?
+      let ops ← (← jArr? ops).mapM toJ
+      let act : Handler → Act := fun h =>
+        match es.find? (fun e => e.1.1.key == h.key) with
+        | some e => e.2
+        | none => ⟨[], none⟩
+      match serveReview (fun _ _ => ops) (es.map (·.1)) c act new old p fns with
+      | none => some (err "missing-data")
+      | some (.ok r) => some (ok (respJson r))
+      | some (.error e) => some (err (errTag e))
   | "C18.ruleops", [h] => do
       let h ← handlerOf? h
       some (ok (.arr ((managedRuleOps h).map Json.str).toArray))
